@@ -73,9 +73,13 @@ Alphabet(K) ==
            <<StoryNT(FreshFrom(FreshPoolS, IdSet(K, "story"))[1])>>),                     \* a story without timing
        Msg("StoryInsert", RefId(l), RefAbsent, <<>>, FreshStories(K, 1)),
        Msg("EAItemMove", RefId(f), RefId(fi), <<RefId("I2")>>, <<>>),
+       Msg("StoryInsert", RefId(l), RefAbsent, <<>>, <<StoryN("S1", "'")>>),      \* S1 again: duplicate, or back after a delete
+       Msg("StoryAppend", RefAbsent, RefAbsent, <<>>, <<StoryN("S1 ", "")>>),     \* an id that differs by trailing blank
+       Msg("RunningOrderEnd", RefAbsent, RefAbsent, <<>>, <<Leaf("roDelete", None, "x:roDelete.foreign")>>),
        Msg("StoryReplace", RefId(UnknownS), RefAbsent, <<>>, FreshStories(K, 1)),
        Msg("RunningOrderEnd", RefAbsent, RefAbsent, <<>>, <<Leaf("roDelete", None, "x:roDelete")>>) }
-     \cup { m \in SendMsgs(K) : m.story = RefId(l) /\ m.bodyPos = 4 /\ Len(m.body) >= 4 }
+     \cup { m \in SendMsgs(K) : m.story = RefId(l) /\ m.bodyPos = 4 /\ Len(m.body) >= 4 /\ m.stok = None }
+     \cup { m \in SendMsgs(K) : m.story = RefId(f) /\ m.bodyPos = 5 /\ Len(m.body) = 1 /\ m.stok = "a:send" }
      \cup { m \in OtherMsgs("RunningOrderReplace", K) : Len(m.carried) = 3 }
 
 StoryIdsSet(K) == IdSet(K, "story")
